@@ -19,10 +19,12 @@ Pool == <<MkDef(1, 10, <<1>>, <<1>>, <<>>, <<(<<1, 11>>), (<<2, 12>>)>>),
           MkDef(7, 10, <<>>, <<2>>, <<>>, <<(<<4, 74>>)>>),
           MkDef(8, 10, <<>>, <<4>>, <<>>, <<(<<1, 81>>)>>),
           MkDef(9, 15, <<6>>, <<>>, <<>>, <<>>),
-          MkDef(10, 15, <<7>>, <<>>, <<>>, <<>>)>>     \* 10: the same inside a nested pipeline      \* 9: fills placeholders from the variables of the pipeline it runs in (it has none of its own)      \* 8: no transformations; its post-processing item prints variable k1 and the state of the pipeline it runs in
+          MkDef(10, 15, <<7>>, <<>>, <<>>, <<>>),
+          MkDef(11, 10, <<>>, <<>>, <<2>>, <<>>)>>     \* 11: a nested finalizer whose template prints variable k1 of the pipeline it runs in     \* 10: the same inside a nested pipeline      \* 9: fills placeholders from the variables of the pipeline it runs in (it has none of its own)      \* 8: no transformations; its post-processing item prints variable k1 and the state of the pipeline it runs in
           \* 7:      \* no transformations, but post-processing and a variable (a second concat finalizer after pipeline 2's would be fed a string)
 NPool == Len(Pool)
-Seqs(n) == {s \in [1..n -> 1..NPool] : \A i, j \in 1..n : i # j => s[i] # s[j]}
+\* (2 and 11 carry a finalizer each: together, the second would be fed the first one's string)
+Seqs(n) == {s \in [1..n -> 1..NPool] : (\A i, j \in 1..n : i # j => s[i] # s[j]) /\ ~(\E i, j \in 1..n : s[i] = 2 /\ s[j] = 11)}
 MaxSum == IF Quick THEN 3 ELSE 4
 SumCases == UNION {{[op |-> "sum", operands |-> s, tree |-> t, ref |-> SumSeq([i \in 1..n |-> Pool[s[i]]])]
                      : s \in Seqs(n), t \in Brackets(1, n)} : n \in 1..MaxSum}
@@ -55,7 +57,7 @@ ThirdCases == {[op |-> "reuse_then_third", operands |-> s, tree |-> Leaf(1), ref
 AfterUseCases == {[op |-> "reuse_after_use", operands |-> s, tree |-> Leaf(1), ref |-> SumSeq(<<Pool[s[1]], Pool[s[3]]>>)]
                      : s \in {t \in Seqs(3) : t[1] \in {8, 9, 10}}}
 \* the same pipeline named twice: p + p, (p + q) + p, and the same name twice in the resolver's list
-TwiceCases == {[op |-> "sum", operands |-> <<i, i>>, tree |-> Node(Leaf(1), Leaf(2)), ref |-> SumSeq(<<Pool[i], Pool[i]>>)] : i \in (1..NPool) \ {2}}      \* (2 has the finalizer: twice, the second would be fed a string)
+TwiceCases == {[op |-> "sum", operands |-> <<i, i>>, tree |-> Node(Leaf(1), Leaf(2)), ref |-> SumSeq(<<Pool[i], Pool[i]>>)] : i \in (1..NPool) \ {2, 11}}      \* (2 has the finalizer: twice, the second would be fed a string)
               \cup {[op |-> "sum", operands |-> <<i, j, i>>, tree |-> Node(Node(Leaf(1), Leaf(2)), Leaf(3)), ref |-> SumSeq(<<Pool[i], Pool[j], Pool[i]>>)] : i \in {1, 8}, j \in {2, 3}}
               \cup {[op |-> "resolve", operands |-> <<i, i>>, tree |-> Leaf(1), ref |-> Resolve(<<Pool[i], Pool[i]>>)] : i \in {1, 3, 8}}
 \* names given to the resolver mean the pipelines registered under them, whatever the working directory contains
